@@ -29,6 +29,7 @@ from common import CORPUS
 from gen import sdl
 from corr import C11_extend
 from corr import C11_additional
+from corr import C11_inprogress
 
 PROPERTY = "C11"
 RULE = ("generated type-system documents: declared content (6 kinds, wrappers, defaults of every input kind, descriptions, "
@@ -1033,8 +1034,14 @@ def run(ctx):
     run_source_forms(ctx)
     run_long_chains(ctx)
     C11_extend.run_lax_stream(ctx, sdl, real_extend, extension_doc, canon, diff_path, EXT_CASES)    # last consumer of ctx.rng
+    inprog = C11_inprogress.collect(ctx, real_build, sdl, sdl.doc_json, canon)      # named probes + stream: now the last consumer of ctx.rng
     run_model(ctx, batch)
     ctx.extra["documents_sent_to_model"] = len(batch.cases)
+    # the exact model of the in-progress bookkeeping: the in-progress cases, and every document of the batch as well
+    C11_inprogress.compare(ctx, inprog, canon, sort_dump, diff_path)
+    C11_inprogress.compare(ctx, [("batch", c["text"], c["items"], c["flags"], c["additional"], c["real"]) for c in batch.cases
+                                 if c["real"][0] != "rej" or c["real"][1] != "validation"],
+                           canon, sort_dump, diff_path, what="batch")
     C11_extend.run_model(ctx, probes, EXT_CASES, canon, sort_dump, diff_path)
     C11_additional.run_model(ctx, add_probes, canon, sort_dump, diff_path)
 
@@ -1050,6 +1057,9 @@ def replay(ctx, data):
         c2 = type(ctx)(ctx.prop, ctx.tier, ctx.seed)
         (run_special if inp.get("special") else (run_schema_directives_once if inp.get("label") == "schema-directives-once" else run_schema_directives))(c2)
         return not any(f["kind"] == "property" and f["detail"].get("sdl") == inp.get("sdl") for f in c2.found)
+    if "inprogress" in inp:
+        real = real_build(inp["sdl"], additional=_live_additional(inp.get("additional")), validate=False, **(inp.get("flags") or {}))
+        return real[0] != "exc" or real[1] == "internal:RecursionError"      # correspondence with the exact model only
     if "additional_probe" in inp:
         return C11_additional.replay(real_build, _live_additional, canon, inp)
     if "ignored_in_lax" in inp:
